@@ -11,14 +11,36 @@ def showOut : Outcome → String
   | .returned => "returned" | .fellOff => "none" | .raised => "ethercat-error"
   | .blocked => "blocked" | .valueError => "value-error"
 
-def step (j : Json) : Option String := do
-  let target ← fNat j "target"
-  let rs ← (← fArr j "responses").mapM fun r => do
+def respsOf (j : Json) : Option (List Resp) := do
+  (← fArr j "responses").mapM fun r => do
     let a ← jArr r
     match a with
     | [s, e, st] => pure { state := ← jNat s, err := ← jBool e, status := ← jNat st : Resp }
     | _ => none
-  let (tr, o) := toOperational target rs
-  pure (joinSp (tr.map showEv) ++ " | " ++ showOut o)
+
+def showTrace (tr : List Ev) (o : Outcome) : String := joinSp (tr.map showEv) ++ " | " ++ showOut o
+
+/-- a terminal whose script is used up reports INIT with the error flag from then on -/
+def errTail : List Resp := List.replicate 3 { state := Ebv.Consts.ms_INIT, err := true, status := 0 }
+
+/-- a bus case: the drivers of all terminals interleaved round-robin with the unanswered traffic
+(index = number of terminals); printed is what each terminal saw and how its call ended -/
+def busStep (terms : List Json) : Option String := do
+  let devs ← terms.mapM fun t => do
+    pure ({ target := ← fNat t "target", ds := .start, rs := (← respsOf t) ++ errTail } : Dev)
+  let n := devs.length
+  let rounds := (devs.map (·.rs.length)).foldl max 0
+  let sched := (List.replicate rounds (n :: List.range n)).flatten
+  let (evs, fin) := sysRun devs sched
+  pure (" || ".intercalate ((List.range n).map fun i =>
+    showTrace (proj i evs) ((fin[i]?.map (·.ds.outcome)).getD .blocked)))
+
+def step (j : Json) : Option String :=
+  match fArr j "terms" with
+  | some terms => busStep terms
+  | none => do
+    let target ← fNat j "target"
+    let (tr, o) := toOperational target (← respsOf j)
+    pure (showTrace tr o)
 
 def main : IO Unit := driverMain step
